@@ -752,12 +752,19 @@ impl LpgStore {
         }
     }
 
-    /// Deletes all edges connected to a node (implements DETACH DELETE).
+    /// Deletes all edges connected to a node (implements DETACH DELETE),
+    /// using the latest epoch.
     ///
     /// Call this before `delete_node()` if you want to remove a node that
     /// has edges. Grafeo doesn't auto-delete edges - you have to be explicit.
-    #[cfg(not(feature = "tiered-storage"))]
     pub fn delete_node_edges(&self, node_id: NodeId) {
+        self.delete_node_edges_at_epoch(node_id, self.current_epoch());
+    }
+
+    /// Deletes all edges connected to a node at a specific epoch
+    /// (the DETACH part of a DETACH DELETE inside a transaction).
+    #[cfg(not(feature = "tiered-storage"))]
+    pub fn delete_node_edges_at_epoch(&self, node_id: NodeId, epoch: EpochId) {
         // Get outgoing edges
         let outgoing: Vec<EdgeId> = self
             .forward_adj
@@ -775,7 +782,6 @@ impl LpgStore {
                 .collect()
         } else {
             // No backward adjacency - scan all edges
-            let epoch = self.current_epoch();
             self.edges
                 .read()
                 .iter()
@@ -793,14 +799,14 @@ impl LpgStore {
 
         // Delete all edges
         for edge_id in outgoing.into_iter().chain(incoming) {
-            self.delete_edge(edge_id);
+            self.delete_edge_at_epoch(edge_id, epoch);
         }
     }
 
     /// Deletes all edges connected to a node (implements DETACH DELETE).
     /// (Tiered storage version)
     #[cfg(feature = "tiered-storage")]
-    pub fn delete_node_edges(&self, node_id: NodeId) {
+    pub fn delete_node_edges_at_epoch(&self, node_id: NodeId, epoch: EpochId) {
         // Get outgoing edges
         let outgoing: Vec<EdgeId> = self
             .forward_adj
@@ -818,7 +824,6 @@ impl LpgStore {
                 .collect()
         } else {
             // No backward adjacency - scan all edges
-            let epoch = self.current_epoch();
             let versions = self.edge_versions.read();
             versions
                 .iter()
@@ -838,7 +843,7 @@ impl LpgStore {
 
         // Delete all edges
         for edge_id in outgoing.into_iter().chain(incoming) {
-            self.delete_edge(edge_id);
+            self.delete_edge_at_epoch(edge_id, epoch);
         }
     }
 
